@@ -32,7 +32,8 @@ FIELD_NAMES = ["a", "b", "c", "d", "e1", "f_2"]
 KW_DEFAULT_KINDS = {"integer", "number", "float", "string", "boolean", "enumLit", "enumCls", "seqAny", "seqOf",
                     "seqPos", "setAny", "setOf", "tupleOf", "tuplePos", "mapAny", "mapOf", "anything"}
 NO_DEFAULT_KINDS = {"struct", "noneF"}
-ATTR_VALUES = {"bool": True, "list": [1, 2], "dict": {"k": 1}, "bareType": int, "generic": list[int], "other": 5}
+ATTR_VALUES = {"bool": True, "list": [1, 2], "dict": {"k": 1}, "bareType": int, "generic": list[int], "other": 5,
+               "union": int | str}   # PEP 604 union of bare types (types.UnionType)
 CLASS_FORM = {"integer": Integer, "string": String, "boolean": typedpy.Boolean, "number": typedpy.Number,
               "float": typedpy.Float, "seqAny": typedpy.Array, "anything": typedpy.Anything,
               "mapAny": typedpy.Map, "setAny": typedpy.Set}
@@ -248,6 +249,132 @@ class HGen:
             classes.append(name)
         return steps, classes, visible
 
+    # ---- multiple inheritance: several bases, diamonds, re-declaration anywhere
+    def variant_decl(self, d):
+        """a declaration of the same kind with other constraints (so that some values are accepted by
+        one and rejected by the other), or an unrelated one"""
+        rng = self.rng
+        k = d["k"]
+        if rng.random() < 0.7:
+            if k in ("integer", "number", "float"):
+                lo = rng.choice([-2, 0, 1, 3, 5])
+                v = {"k": k, "min": [lo, 1], "max": [lo + rng.choice([2, 4, 7]), 1]}
+                if rng.random() < 0.3:
+                    v["mult"] = rng.choice([2, 3])
+                return v
+            if k == "string":
+                lo = rng.choice([0, 1, 2])
+                v = {"k": "string", "minLength": lo, "maxLength": lo + rng.choice([0, 1, 3])}
+                if rng.random() < 0.3:
+                    v["pattern"] = rng.choice(gen.PATTERNS)
+                return v
+            if k in ("seqAny", "setAny", "mapAny"):
+                v = dict(d)
+                v["maxItems"] = rng.choice([1, 2, 3])
+                v["minItems"] = rng.choice([0, 1])
+                return v
+            if k == "enumLit":
+                return {"k": "enumLit", "values": rng.sample([1, 2, 3, "a", "x1", "abc"], rng.randint(1, 3))}
+        return self.decl()
+
+    def constrained_decl(self):
+        rng = self.rng
+        r = rng.random()
+        if r < 0.35:
+            return self.variant_decl({"k": rng.choice(["integer", "number", "float"])})
+        if r < 0.6:
+            return self.variant_decl({"k": "string"})
+        if r < 0.7:
+            return self.variant_decl({"k": rng.choice(["seqAny", "setAny", "mapAny"])})
+        return self.decl()
+
+    def plain_field(self, d, p_default=0.15):
+        e = {"e": "field", "decl": d, "kw": None, "eq": None}
+        if self.rng.random() < 0.25:
+            e["annOnly"] = True
+        if self.rng.random() < p_default and d["k"] in KW_DEFAULT_KINDS and '"k": "struct"' not in json.dumps(d):
+            v = self.vg.valid(d)
+            if v is not gen.NOVALUE and v is not None:
+                v = dump.canon(dump.dump_value(dump.load_value(v, self.ctx), self.ctx))
+                e["kw"] = self.dflt_of(v)
+                e.pop("annOnly", None)
+        return e
+
+    def mi_src(self, name, bases, decls, p_redeclare, n_new, required_written=0.15):
+        """class source for the multiple-inheritance stream: re-declares each visible field with
+        probability p_redeclare (usually the same kind with other constraints), adds n_new fields;
+        `decls` maps visible name -> a declaration currently in force somewhere above"""
+        rng = self.rng
+        entries = []
+        for nm in sorted(decls):
+            if rng.random() < p_redeclare:
+                entries.append([nm, self.plain_field(self.variant_decl(decls[nm]), p_default=0.1)])
+        new = [x for x in FIELD_NAMES if x not in decls]
+        rng.shuffle(new)
+        for nm in new[:n_new]:
+            entries.append([nm, self.plain_field(self.constrained_decl())])
+        rng.shuffle(entries)
+        src = {"name": name, "bases": bases, "entries": entries, "required": None, "optional": [],
+               "addl": None, "ignoreNone": None, "immutable": None, "keysOf": []}
+        if rng.random() < required_written:
+            every = sorted(set(decls) | {k for k, _ in entries})
+            src["required"] = sorted(rng.sample(every, rng.randint(0, len(every))))
+        if rng.random() < 0.2:
+            src["ignoreNone"] = True
+        return src
+
+    def mi_hierarchy(self):
+        """steps for a hierarchy with multiple inheritance.  Shapes: diamond S(L, R) over a shared root,
+        diamond with a longer arm, three bases, two unrelated roots, a leaf below the join; a field may
+        be re-declared at the root's children (first base / later base), at the join and at the leaf."""
+        rng = self.rng
+        steps, classes, visible = [], [], {}
+
+        def define(bases, p_redeclare, n_new):
+            name = self.fresh()
+            decls = {}
+            for b in reversed(bases):
+                decls.update(visible.get(b, {}))
+            src = self.mi_src(name, list(bases), decls, p_redeclare, n_new)
+            steps.append({"op": "define", "src": src})
+            vis = dict(decls)
+            vis.update({k: e["decl"] for k, e in src["entries"] if e["e"] == "field"})
+            visible[name] = vis
+            classes.append(name)
+            return name
+
+        shape = rng.choice(["diamond", "diamond", "diamond", "long-arm", "three", "unrelated", "double"])
+        root = define(["Structure"], 0.0, rng.randint(1, 3))
+        if shape == "unrelated":
+            other = define(["Structure"], 0.0, rng.randint(1, 2))
+            # the second root re-declares some of the first root's names on its own
+            for nm in rng.sample(sorted(visible[root]), rng.randint(0, len(visible[root]))):
+                e = self.plain_field(self.variant_decl(visible[root][nm]), 0.1)
+                steps[-1]["src"]["entries"] = [p for p in steps[-1]["src"]["entries"] if p[0] != nm]
+                steps[-1]["src"]["entries"].append([nm, e])
+                visible[other][nm] = e["decl"]
+            arms = [root, other]
+        else:
+            left = define([root], rng.choice([0.0, 0.0, 0.4]), rng.randint(0, 1))
+            right = define([root], rng.choice([0.5, 0.5, 0.9]), rng.randint(0, 1))
+            if shape == "long-arm":
+                right = define([right], rng.choice([0.0, 0.4]), rng.randint(0, 1))
+            arms = [left, right]
+            if shape == "three":
+                arms.append(define([root], 0.5, rng.randint(0, 1)))
+            if shape == "double":
+                arms = [define([left, right], 0.2, 0), define([root], 0.5, 1)]
+        rng.shuffle(arms) if rng.random() < 0.35 else None
+        bases = list(arms)
+        if rng.random() < 0.15:
+            m = self.fresh("Mx")
+            steps.append({"op": "mixin", "name": m})
+            bases.insert(rng.randint(0, len(bases)), m)
+        join = define(bases, rng.choice([0.0, 0.0, 0.25]), rng.randint(0, 1))
+        if rng.random() < 0.3:
+            define([join], rng.choice([0.0, 0.3]), rng.randint(0, 1))
+        return steps, classes, {k: set(v) for k, v in visible.items()}
+
     # ---- single-fault variants
     def simple_src(self, name, bases):
         nm = self.rng.choice(["p", "q", "r1"])
@@ -345,6 +472,9 @@ class HGen:
         variant("unknown-attr", lambda s: s["entries"].append([an, {"e": "attr", "a": ak}]), expect=guards["consts"])
         bn, bk = rng.choice([("x", "bareType"), ("x", "generic"), ("_x", "bareType"), ("some_type", "generic")])
         variant("bare-type", lambda s: s["entries"].append([bn, {"e": "attr", "a": bk}]), expect=guards["nontypedpy"])
+        un = rng.choice(["x", "some_type", "u1"])
+        variant("bare-type:pep604-union", lambda s: s["entries"].append([un, {"e": "attr", "a": "union"}]),
+                expect=guards["nontypedpy"])
         return out
 
     def control_of(self, src, kind):
@@ -404,9 +534,14 @@ def gen_define_cases(rng, tier, n):
     for i in range(n):
         hg = HGen(rng, tier)
         guards = {"consts": rng.random() < 0.75, "nontypedpy": rng.random() < 0.75}
-        steps, classes, visible = hg.hierarchy(4, sealed_leaf=rng.random() < 0.3)
+        if rng.random() < 0.25:
+            steps, classes, visible = hg.mi_hierarchy()
+            stream = "multi-inheritance"
+        else:
+            steps, classes, visible = hg.hierarchy(4, sealed_leaf=rng.random() < 0.3)
+            stream = "hierarchy"
         mode = rng.choice(["type", "exec"])
-        case = {"suite": "define", "guards": guards, "steps": steps, "mode": mode, "stream": "hierarchy"}
+        case = {"suite": "define", "guards": guards, "steps": steps, "mode": mode, "stream": stream}
         cases.append(finish(case))
         if i % 3 == 0:
             # single-fault variants on top of a hierarchy
@@ -440,11 +575,17 @@ def gen_derive_cases(rng, tier, n):
     for i in range(n):
         hg = HGen(rng, tier)
         guards = {"consts": True, "nontypedpy": True}
-        steps, classes, visible = hg.hierarchy(3, sealed_leaf=rng.random() < 0.4)
-        src = classes[-1] if rng.random() < 0.7 else rng.choice(classes)
+        if rng.random() < 0.4:
+            steps, classes, visible = hg.mi_hierarchy()
+            stream = "derive-multi-inheritance"
+            src = classes[-1] if rng.random() < 0.8 else rng.choice(classes[-3:])
+        else:
+            steps, classes, visible = hg.hierarchy(rng.choice([3, 3, 5]), sealed_leaf=rng.random() < 0.4)
+            stream = "derive"
+            src = classes[-1] if rng.random() < 0.7 else rng.choice(classes)
         steps = steps + hg.derive_ops(src, sorted(visible[src]), 3)
         cases.append(finish({"suite": "derive", "guards": guards, "steps": steps, "mode": rng.choice(["type", "exec"]),
-                             "stream": "derive"}))
+                             "stream": stream}))
     return cases
 
 
@@ -647,6 +788,31 @@ def field_probe_values(f_decl, vg):
     return [v for v in vals if v is not None]
 
 
+def all_decl_probes(cls, name, env, vg):
+    """probe values for field `name` drawn from EVERY declaration of that name in the hierarchy of
+    `cls` (each class of the MRO that declares it, plus what get_all_fields_by_name reports), so that
+    values on which two declarations disagree are always in the stream"""
+    decls, seen = [], set()
+    cands = [c.__dict__.get(name) for c in cls.__mro__
+             if isinstance(c, typedpy.structures.structures.StructMeta) and name in c.__dict__.get("_fields", [])]
+    cands.append(cls.get_all_fields_by_name().get(name))
+    for f in cands:
+        if f is None or isinstance(f, Constant):
+            continue
+        try:
+            d = dump.dump_field(f, env.ctx)
+        except Exception:
+            continue
+        key = json.dumps(d, sort_keys=True)
+        if key not in seen:
+            seen.add(key)
+            decls.append(d)
+    vals = []
+    for d in decls:
+        vals += field_probe_values(d, vg) if not vals else [v for v in field_probe_values(d, vg)[:14]]
+    return vals
+
+
 def try_assign(cls, name, value, env):
     """outcome of giving `value` to field `name` of a fresh instance of `cls` (skipping the
     constructor's required-argument binding so that one field can be probed in isolation)"""
@@ -745,7 +911,7 @@ def observe_define(st, cls, env, vg):
             d = dump.dump_field(f, env.ctx)
         except Exception:
             continue
-        vals = field_probe_values(d, vg)
+        vals = all_decl_probes(cls, name, env, vg)
         rec = {"field": name, "owner": owner.__name__, "same_object": f is owner.__dict__.get(name)}
         # None is compared only when class-level None handling is meant to agree
         if (name in cls._required) == (name in owner._required) and \
@@ -823,7 +989,7 @@ def observe_derive(st, source, derived, env, vg, before):
             d = dump.dump_field(sf[name], env.ctx)
         except Exception:
             continue
-        vals = field_probe_values(d, vg)
+        vals = all_decl_probes(source, name, env, vg)
         if (name in source._required) == (name in derived._required) and ign_same:
             vals = vals + [None]
         diff = compare_field_behaviour(source, derived, name, vals, env)
